@@ -34,11 +34,30 @@ def check_file(ck, data, las, arr, evlr_list, inp, what):
     """read the file back with laspy and compare its header with the recomputed statistics"""
     import laspy
     minor, fmt = las.header.version.minor, las.header.point_format.id
+    # the layout arithmetic first, from the specification's field positions alone (a header block longer or shorter than it says
+    # shifts every later field: laspy would then be reading VLR counts out of text or coordinates)
+    if len(data) < 227 or data[:4] != b"LASF":
+        ck.fail(f"{what}: not a LAS file ({len(data)} bytes, signature {data[:4]!r})", inp)
+        return False
+    u = lambda o, w: int.from_bytes(data[o:o + w], "little")
+    hsize, off, nvlr, reclen = u(94, 2), u(96, 4), u(100, 4), u(105, 2)
+    count = u(247, 8) if data[25] >= 4 else u(107, 4)
+    want_hsize = {1: 227, 2: 227, 3: 235, 4: 375}.get(data[25])
+    pos, okl = hsize, (data[24], data[25]) == (1, minor) and hsize == want_hsize + len(las.header.extra_header_bytes) and reclen == las.header.point_format.size
+    for _ in range(nvlr if okl and nvlr < 1000 else 0):
+        if pos + 54 > len(data):
+            okl = False
+            break
+        pos += 54 + u(pos + 20, 2)
+    if not okl or nvlr >= 1000 or pos > off or off + count * reclen > len(data):
+        ck.fail(f"{what}: the layout fields do not describe the file: version {data[24]}.{data[25]}, header size {hsize} (format says {want_hsize}), "
+                f"{nvlr} VLRs ending at {pos}, offset to points {off}, {count} x {reclen} bytes of records, file length {len(data)}", inp)
+        return False
     try:
         back = laspy.read(io.BytesIO(data))
     except Exception as e:
         ck.fail(f"{what}: reading raised {type(e).__name__}: {e}", inp)
-        return
+        return False
     h = back.header
     exp = expected_stats(las.header, arr, fmt, minor)
     if h.point_count != exp["count"] or len(back.points) != exp["count"]:
@@ -59,6 +78,7 @@ def check_file(ck, data, las, arr, evlr_list, inp, what):
             ck.fail(f"{what}: EVLR pointer {h.start_of_first_evlr}/{h.number_of_evlrs} does not locate the EVLRs", inp)
     elif h.number_of_evlrs != 0:
         ck.fail(f"{what}: number_of_evlrs = {h.number_of_evlrs} without EVLRs", inp)
+    return True
 
 
 def check_mem(ck, las, inp, what):
@@ -98,11 +118,20 @@ def run(ck):
         arr = las.points.array.copy()
         inp = {"kind": "file", "minor": minor, "fmt": fmt, "n": n, "scales": sc, "offsets": of, "evlrs": None if evlrs is None else len(evlrs),
                "raw": arr.tobytes().hex()[:800]}
+        if ci % 5 == 1:
+            # header texts taken from fixed-size, NUL-padded buffers (as C structs give them), the text part longer than the field
+            ck.count("header_texts_from_nul_padded_buffers")
+            t1 = "".join(ck.rng.choice("abcdefghijklmnopqrstuvwxyz 0123456789") for _ in range(ck.rng.choice([33, 44, 64])))
+            t2 = "".join(ck.rng.choice("ABCDEFGHIJKLMNOPQRSTUVWXYZ") for _ in range(ck.rng.choice([5, 32, 40])))
+            las.header.generating_software = t1.ljust(80, "\0")
+            las.header.system_identifier = t2.ljust(48, "\0")
+            inp["header_texts"] = [t1, t2]
         ck.case(("c03file", minor, fmt, arr.tobytes()), nontrivial=n > 0)
         ck.count("file_n=%d" % n)
         one = io.BytesIO()
         las.write(one)
-        check_file(ck, one.getvalue(), las, arr, las.evlrs if minor >= 4 else None, inp, "one-shot file")
+        if not check_file(ck, one.getvalue(), las, arr, las.evlrs if minor >= 4 else None, inp, "one-shot file"):
+            continue        # nothing that laspy could safely be asked to read again
         parts = c04.rand_partition(ck.rng, n)
         chunked = c04.chunked_write(las, parts)
         check_file(ck, chunked, las, arr, las.evlrs if minor >= 4 else None, dict(inp, parts=list(parts)), f"chunked file {parts}")
